@@ -69,6 +69,23 @@ def split_oracle(n, k, kind):
               if s != lists[i]:
                   out.append(('shard_eq_split', {'n': n, 'k': k, 'i': i, 'shard': s, 'split': lists[i]}))
                   break
+          # the shard taken lazily (`ds.apply(lambda d: d.shard(k, i), lazy=True)`, the usage the `apply` docstring
+          # recommends): it yields the shard, and whatever it answers about its length and keys is true of the shard
+          for i in range(k):
+              lz = ds.apply(lambda d, i=i: d.shard(k, i), lazy=True)
+              got = outcome(lambda: list(lz), lambda x: x)
+              if got != {'ok': lists[i]}:
+                  out.append(('lazy_shard_eq_split', {'n': n, 'k': k, 'i': i, 'lazy_shard': got, 'split': lists[i]}))
+                  break
+              ln = outcome(lambda: len(lz))
+              if 'ok' in ln and ln['ok'] != len(lists[i]):
+                  out.append(('lazy_shard_len', {'n': n, 'k': k, 'i': i, 'len': ln['ok'], 'yields': len(lists[i])}))
+                  break
+              if kind == 'dict':
+                  kz = outcome(lambda: list(lz.keys()), lambda x: x)
+                  if 'ok' in kz and kz['ok'] != list(parts[i].keys()):
+                      out.append(('lazy_shard_keys', {'n': n, 'k': k, 'i': i, 'keys': kz['ok'], 'keys_of_split': list(parts[i].keys())}))
+                      break
           if kind == 'dict':
               keys = [list(p.keys()) for p in parts]
               if [x for l in keys for x in l] != list(ds.keys()):
